@@ -712,10 +712,15 @@ class RecordContextMatcher:
                         raise InvalidOperation(
                             "Generator variable '{}' overwrites existing variable!".format(gen.target.id)
                         )
-                values = recursive_generator(node.generators[::-1])
-                for val in values:
-                    result = self.eval(node.elt)
-                    yield result
+                try:
+                    values = recursive_generator(node.generators[::-1])
+                    for val in values:
+                        result = self.eval(node.elt)
+                        yield result
+                finally:
+                    # the loop variables end with the generator expression, a later one can use the same names
+                    for gen in node.generators:
+                        self.data.pop(gen.target.id, None)
 
             return generator_expr()
 
